@@ -17,7 +17,7 @@ def xml_table():
     """The bundled HMRC files read independently of the code: {(code, year, month): set of rates listed under that code}"""
     import glob
     out = defaultdict(set)
-    for p in sorted(glob.glob("/repo/crates/cgt-money/resources/rates/*.xml")):
+    for p in sorted(glob.glob(os.path.join(build.REPO, "crates/cgt-money/resources/rates/*.xml"))):
         mt = re.fullmatch(r"(\d{4})-(\d{2})\.xml", os.path.basename(p))
         if not mt: continue
         y, m = int(mt.group(1)), int(mt.group(2))
